@@ -523,9 +523,8 @@ func (c *ctx) funcVar(e ast.Expr) (*types.Var, bool) {
 
 // step of an assignable path below its root variable
 type step struct {
-	field  string // ".f"
-	index  string // "[i]" (a pure term, already evaluated)
-	pfield string // ".f" through a pointer to a record of another package (recmut.go)
+	field string // ".f"
+	index string // "[i]" (a pure term, already evaluated)
 }
 
 // place evaluates the operands of an assignable expression now and returns how to store into it later.
@@ -565,11 +564,6 @@ func (c *ctx) placeOf(l ast.Expr, define, elemsOnly bool) func(val string) {
 		switch x := e.(type) {
 		case *ast.SelectorExpr:
 			if c.t.ownStruct(c.typeOf(x.X)) == nil {
-				if c.recordFieldStore(x) { // p.f = e for a pointer p to a record of another package: recmut.go
-					steps = append([]step{{pfield: c.t.ident(x.Sel)}}, steps...)
-					e = ast.Unparen(x.X)
-					continue
-				}
 				c.fail(l, "assignment through %s", c.typeOf(x.X))
 			}
 			steps = append([]step{{field: c.t.ident(x.Sel)}}, steps...)
@@ -628,9 +622,6 @@ func (c *ctx) store(base string, steps []step, val string) string {
 		return val
 	}
 	s := steps[0]
-	if s.pfield != "" {
-		return c.storeRecordField(base, s, steps[1:], val)
-	}
 	if s.field != "" {
 		return "{ " + base + " with " + s.field + " := " + c.store(paren(base)+"."+s.field, steps[1:], val) + " }"
 	}
